@@ -288,7 +288,16 @@ func (bm ConnectedBitmask) XorCopy(other ConnectedBitmask) ConnectedBitmask {
 	}
 	new = append(new, bm.entries[aIdx:]...)
 	new = append(new, other.entries[bIdx:]...)
-	return ConnectedBitmask{new}
+	// merge touching entries, all other methods rely on them being separated by a gap
+	merged := new[:0]
+	for _, e := range new {
+		if l := len(merged); l != 0 && merged[l-1].max+1 == e.min {
+			merged[l-1].max = e.max
+			continue
+		}
+		merged = append(merged, e)
+	}
+	return ConnectedBitmask{merged}
 }
 
 func (bm *ConnectedBitmask) Sub(other ConnectedBitmask) {
@@ -367,6 +376,11 @@ func (bm *ConnectedBitmask) Extract(bit uint) bool {
 		e := &bm.entries[i]
 		if e.max < bit {
 			return false
+		}
+		if e.min == bit && e.max == bit {
+			// remove the entry before decrementing max, bit might be 0
+			bm.entries = append(bm.entries[:i], bm.entries[i+1:]...)
+			return true
 		}
 		e.max--
 		if e.min < bit {
